@@ -26,10 +26,9 @@ open SaVerif.OrderingList
 def OpOk (st : St) : Op → Prop
   | .append e => e ∉ st.items ∧ (st.pos e = none ∨ st.roa = true)
   | .insert _ e => e ∉ st.items
-  | .setItem i e => 0 ≤ i ∧ e ∉ st.items
+  | .setItem _ e => e ∉ st.items
   | .extend es => es.Nodup ∧ ∀ e, e ∈ es → e ∉ st.items ∧ (st.pos e = none ∨ st.roa = true)
-  | .setSlice start stop _ vals =>
-    0 ≤ start ∧ -1 ≤ stop ∧ vals.Nodup ∧ ∀ e, e ∈ vals → e ∉ st.items
+  | .setSlice _ _ _ vals => vals.Nodup ∧ ∀ e, e ∈ vals → e ∉ st.items
   | .reverse => st.items.length ≤ 1
   | .setOrder l => l = st.items
   | _ => True
@@ -58,7 +57,7 @@ theorem good_step {st : St} (h : Good st) (op : Op) (g : OpOk st op) : Good (ste
     simp only [step]
     split
     · rename_i st1 hs
-      exact (setItem_good h i e g.1 g.2 hs).1
+      exact (setItem_good h i e g hs).1
     · exact h
   | delItem i =>
     simp only [step]
@@ -74,19 +73,17 @@ theorem good_step {st : St} (h : Good st) (op : Op) (g : OpOk st op) : Good (ste
     by_cases hstp : stp = 1
     · simp only [hstp, if_true]
       have d := delLoop_good (pyRange start stop 1).length st start.toNat h
-      exact insLoop_good vals _ _ d.1 g.2.2.1 (fun e he hm => g.2.2.2 e he (d.2 e hm))
+      exact insLoop_good vals _ _ d.1 g.1 (fun e he hm => g.2 e he (d.2 e hm))
     · simp only [hstp, if_false]
       by_cases hlen : vals.length = (pyRange start stop stp).length
       · simp only [hlen, ne_eq, not_true_eq_false, if_false]
         split
         · rename_i st1 heq
-          refine setLoop_good _ st st1 h ?_ ?_ ?_ heq
-          · intro p hp
-            exact pyRange_nonneg start stop stp g.1 g.2.1 p.1 (List.of_mem_zip hp).1
+          refine setLoop_good _ st st1 h ?_ ?_ heq
           · rw [List.map_snd_zip (by omega)]
-            exact g.2.2.1
+            exact g.1
           · intro p hp
-            exact g.2.2.2 p.2 (List.of_mem_zip hp).2
+            exact g.2 p.2 (List.of_mem_zip hp).2
         · exact h
       · simp only [ne_eq, hlen, not_false_eq_true, if_true]
         exact h
@@ -131,7 +128,7 @@ theorem positions_eq_indices (start : Int) (roa : Bool) (ops : List Op)
       = some ((i : Int) + (run (init start roa) ops).start) :=
   (good_run ops _ (good_init start roa) g).2 i h
 
-/-- whatever happened before (sort, reverse, negative-index assignment, stale positions):
+/-- whatever happened before (sort, reverse, stale positions):
     `reorder()` restores the property on a duplicate-free list -/
 theorem reorder_restores (st : St) (hn : st.items.Nodup) : Sync (reorder st) :=
   reorder_sync st hn
@@ -146,10 +143,11 @@ example :
 
 /-! ### the excluded cases are real (counterexamples, replayed on the real code) -/
 
-/-- `l[-1] = e` stores `ordering_func(-1)`: the index is used as given -/
-theorem setitem_negative_counterexample :
+/-- `l[-1] = e` stores the position of the real index (fixed in the code: the negative index is
+    normalised before `_order_entity`) -/
+example :
     let st := run (init 0 false) [Op.extend [0, 1, 2], Op.setItem (-1) 3]
-    st.items = [0, 1, 3] ∧ st.pos 3 = some (-1) := by
+    st.items = [0, 1, 3] ∧ st.pos 3 = some 2 := by
   decide
 
 /-- `sort()` / `reverse()` are inherited from `list`: positions are not updated -/
@@ -570,29 +568,25 @@ theorem remove_refines (s : St) (v : Int) :
     simp only [view]
     exact view_eraseFirst s.col v
 
-/-- `proxy *= n` for `n ≥ 0` is `list.__imul__` on the proxied values -/
-theorem imul_refines (s : St) (n : Nat) : view (imul s n) = repeatList (view s) n := by
+/-- `proxy *= n` is `list.__imul__` on the proxied values, for every integer `n`
+    (`n ≤ 0` empties the list) -/
+theorem imul_refines (s : St) (n : Int) : view (imul s n) = repeatList (view s) n.toNat := by
   unfold imul
-  cases n with
-  | zero => simp [clear, view, repeatList]
-  | succ k =>
-    have h0 : ¬ ((k + 1 : Nat) : Int) = 0 := by omega
-    simp only [h0, if_false]
-    cases k with
-    | zero => simp [repeatList]
-    | succ j =>
-      have h1 : (((j + 1 + 1 : Nat) : Int)) > 1 := by omega
-      simp only [h1, if_true]
+  by_cases h0 : n ≤ 0
+  · have : n.toNat = 0 := by omega
+    simp [h0, this, clear, view, repeatList]
+  · simp only [h0, if_false]
+    by_cases h1 : n > 1
+    · simp only [h1, if_true]
       rw [extend_refines]
-      have : ((((j + 1 + 1 : Nat) : Int)) - 1).toNat = j + 1 := by omega
+      have : n.toNat = (n - 1).toNat + 1 := by omega
       rw [this]
       rfl
+    · have : n = 1 := by omega
+      subst this
+      simp [repeatList]
 
-/-- the full-strength statement for negative `n` is false: `proxy *= -1` leaves the list
-    unchanged where `list.__imul__` empties it -/
-theorem imul_negative_counterexample :
-    view (imul (extend ⟨[], 0⟩ [1, 2]) (-1)) = [1, 2] := by
-  decide
+example : view (imul (extend ⟨[], 0⟩ [1, 2]) (-1)) = [] := by decide
 
 example : view (imul (extend ⟨[], 0⟩ [1, 2]) 3) = [1, 2, 1, 2, 1, 2] := by decide
 
